@@ -25,6 +25,40 @@ def vflag():
     return '--debug' if LEVEL[0] == 'debug' else '-q'
 
 
+TMP_OTHER_FS = [None]
+
+
+def _other_filesystem_tmpdir(spec):
+    """Every fourth shard: the default temporary directory (what the code under test gets from tempfile) lies on another file
+    system than the directories the checks create for carts (tempfile.mkdtemp(prefix='vf-...') keeps using the usual one), when
+    /dev/shm offers one.  Moving a finished file into place then crosses a device boundary."""
+    import atexit
+    import os
+    import shutil
+    import tempfile
+    digits = ''.join(ch for ch in str(spec.get('name', 'shard0')) if ch.isdigit())
+    if int(digits or 0) % 4 != 2:
+        return
+    usual = tempfile.gettempdir()
+    try:
+        if not os.path.isdir('/dev/shm') or os.stat('/dev/shm').st_dev == os.stat(usual).st_dev:
+            return
+        other = tempfile.mkdtemp(prefix='vf-ambient-', dir='/dev/shm')
+    except OSError:
+        return
+    atexit.register(shutil.rmtree, other, True)
+    tempfile.tempdir = other
+    os.environ['TMPDIR'] = other
+    real_mkdtemp = tempfile.mkdtemp
+
+    def mkdtemp(suffix=None, prefix=None, dir=None):
+        if dir is None and prefix and str(prefix).startswith('vf-'):
+            dir = usual
+        return real_mkdtemp(suffix, prefix, dir)
+    tempfile.mkdtemp = mkdtemp
+    TMP_OTHER_FS[0] = other
+
+
 def install(spec):
     """Called once per shard process, after pico8 became importable."""
     try:
@@ -44,6 +78,7 @@ def install(spec):
         VERSION[0] = (8, 33, 0, 41, 29, 30, 16, 255)[int(digits or 0) % 8]
     except Exception:
         pass
+    _other_filesystem_tmpdir(spec)
     util._write_stream = Sink()
     util._error_stream = Sink()
     util.set_verbosity({'quiet': util.VERBOSITY_QUIET, 'normal': util.VERBOSITY_NORMAL, 'debug': util.VERBOSITY_DEBUG}[level])
